@@ -38,8 +38,69 @@ func rulesC08(c *Ctx) {
 }
 
 // digitsC08: the numeric part of a component is read as a decimal 64-bit integer.
+// digitCapC08: a test of the number of digits of a component that ends in an
+// error must admit 19 digits — 9223372036854775807ns is a duration.
+func digitCapC08(c *Ctx, f *ssa.Function) {
+	isErrBlock := func(b *ssa.BasicBlock) bool {
+		ret, ok := b.Instrs[len(b.Instrs)-1].(*ssa.Return)
+		if !ok || len(ret.Results) != 2 {
+			return false
+		}
+		k, isC := ret.Results[1].(*ssa.Const)
+		return !(isC && k.IsNil())
+	}
+	n := 0
+	for _, b := range f.Blocks {
+		ifi, ok := b.Instrs[len(b.Instrs)-1].(*ssa.If)
+		if !ok {
+			continue
+		}
+		cmp, ok := ifi.Cond.(*ssa.BinOp)
+		if !ok || (cmp.Op != token.GTR && cmp.Op != token.GEQ) || !isErrBlock(b.Succs[0]) {
+			continue
+		}
+		k, ok := cmp.Y.(*ssa.Const)
+		if !ok || k.Value == nil || !isIntegerType(cmp.X.Type()) {
+			continue
+		}
+		// the count: a difference of two positions, or the length of a slice of the text
+		count := false
+		switch x := cmp.X.(type) {
+		case *ssa.BinOp:
+			if x.Op == token.SUB {
+				_, c1 := x.X.(*ssa.Const)
+				_, c2 := x.Y.(*ssa.Const)
+				count = !c1 && !c2
+			}
+		case *ssa.Call:
+			if bi, ok := x.Call.Value.(*ssa.Builtin); ok && bi.Name() == "len" {
+				_, isSlice := x.Call.Args[0].(*ssa.Slice)
+				count = isSlice
+			}
+		}
+		if !count {
+			continue
+		}
+		lim, _ := constant.Int64Val(constant.ToInt(k.Value))
+		if cmp.Op == token.GEQ {
+			lim--
+		}
+		if lim < 2 {
+			continue
+		}
+		n++
+		key := fmt.Sprintf("ParseDuration: digit-count limit #%d", n)
+		if lim >= 19 {
+			c.OK("C08.digits", key, cmp.Pos(), fmt.Sprintf("admits %d digits", lim))
+		} else {
+			c.Bad("C08.digits", key, cmp.Pos(), fmt.Sprintf("a component of more than %d digits is rejected, but a 19-digit count of nanoseconds (what FormatDuration prints for the largest durations) fits in int64", lim))
+		}
+	}
+}
+
 func digitsC08(c *Ctx, f *ssa.Function) {
 	c.Rule("C08.digits", "ParseDuration converts the digits of each component with strconv.ParseInt in base 10 and 64 bits (the digits it collects are decimal digits; another or an auto-detected base reads 010m as 8m)")
+	digitCapC08(c, f)
 	n := 0
 	for _, b := range f.Blocks {
 		for _, in := range b.Instrs {
@@ -542,6 +603,29 @@ func ladderC08(c *Ctx, f *ssa.Function, parse map[string]int64) {
 		cond, ok := ifi.Cond.(*ssa.BinOp)
 		if !ok || cond.Op != token.EQL {
 			c.Unk("C08.ladder", fmt.Sprintf("FormatDuration: rung %d", rungs), ifi.Pos(), "a rung that is not an `== 0` test: the formatter no longer has the shape 'largest unit that divides'")
+			return
+		}
+		// d.Round(u) == d is not "u divides d": Round saturates at the largest
+		// duration, which therefore passes every such test
+		roundOf := func(a, other ssa.Value) (string, bool) {
+			call, ok := a.(*ssa.Call)
+			if !ok || other != d || len(call.Call.Args) != 2 || call.Call.Args[0] != d {
+				return "", false
+			}
+			cal := call.Call.StaticCallee()
+			if cal == nil || cal.Pkg == nil || cal.Pkg.Pkg.Path() != "time" {
+				return "", false
+			}
+			return cal.Name(), true
+		}
+		if nm, ok := roundOf(cond.X, cond.Y); !ok {
+			nm, ok = roundOf(cond.Y, cond.X)
+			if ok && nm == "Round" {
+				c.Bad("C08.ladder", fmt.Sprintf("FormatDuration: rung %d", rungs), cond.Pos(), "divisibility is tested as d.Round(unit) == d: Round saturates, so the largest (and smallest) duration passes the test for every unit and is printed as a truncated quotient")
+				return
+			}
+		} else if nm == "Round" {
+			c.Bad("C08.ladder", fmt.Sprintf("FormatDuration: rung %d", rungs), cond.Pos(), "divisibility is tested as d.Round(unit) == d: Round saturates, so the largest (and smallest) duration passes the test for every unit and is printed as a truncated quotient")
 			return
 		}
 		if z, ok := constOf(cond.Y); !ok || z != 0 {
